@@ -66,6 +66,59 @@ func PathExists(fn *ssa.Function, from ssa.Instruction, to func(ssa.Instruction)
 			if q.CutEdge != nil && q.CutEdge(s.b, i) {
 				continue
 			}
+			// jump threading: `x := a && b; if x` — the successor only merges a boolean phi and
+			// branches on it. Coming from this predecessor the phi has a known incoming value:
+			// a constant decides the branch, a condition value is treated as if branched on here.
+			if phi, ok := phiIfBlock(succ); ok {
+				hit := false
+				for _, in := range succ.Instrs {
+					if to(in) {
+						hit = true
+					}
+				}
+				if hit {
+					return true, succ.Instrs[0]
+				}
+				idx := -1
+				for pi, p := range succ.Preds {
+					if p == s.b {
+						idx = pi
+					}
+				}
+				if idx >= 0 && idx < len(phi.Edges) {
+					v := phi.Edges[idx]
+					neg := phiIfNegated(succ)
+					for k, next := range succ.Succs {
+						want := k == 0
+						if neg {
+							want = !want
+						}
+						if bv, isConst := BoolConst(v); isConst {
+							if bv != want {
+								continue
+							}
+						} else if q.CutEdge != nil {
+							fake := &ssa.BasicBlock{Instrs: []ssa.Instruction{&ssa.If{Cond: v}}, Succs: []*ssa.BasicBlock{next, next}}
+							slot := 0
+							if !want {
+								slot = 1
+							}
+							if q.CutEdge(fake, slot) {
+								continue
+							}
+						}
+						// the real edge succ -> next may itself be cut by a predicate on the phi
+						if q.CutEdge != nil && q.CutEdge(succ, k) {
+							continue
+						}
+						if !visited[next] {
+							visited[next] = true
+							work = append(work, st{next, 0})
+						}
+					}
+					continue
+				}
+			}
 			if !visited[succ] {
 				visited[succ] = true
 				work = append(work, st{succ, 0})
@@ -73,6 +126,52 @@ func PathExists(fn *ssa.Function, from ssa.Instruction, to func(ssa.Instruction)
 		}
 	}
 	return false, nil
+}
+
+// phiIfBlock: the block consists of phis (and debug refs) followed by an If on one of those phis (possibly negated).
+func phiIfBlock(b *ssa.BasicBlock) (*ssa.Phi, bool) {
+	if len(b.Instrs) < 2 || len(b.Succs) != 2 {
+		return nil, false
+	}
+	ifi, ok := b.Instrs[len(b.Instrs)-1].(*ssa.If)
+	if !ok {
+		return nil, false
+	}
+	cond := ifi.Cond
+	if u, ok := cond.(*ssa.UnOp); ok && u.Op == token.NOT && u.Block() == b {
+		cond = u.X
+	}
+	phi, ok := cond.(*ssa.Phi)
+	if !ok || phi.Block() != b {
+		return nil, false
+	}
+	if _, isBool := phi.Type().Underlying().(*types.Basic); !isBool {
+		return nil, false
+	}
+	for _, in := range b.Instrs[:len(b.Instrs)-1] {
+		switch x := in.(type) {
+		case *ssa.Phi, *ssa.DebugRef:
+		case *ssa.UnOp:
+			if x.Op != token.NOT {
+				return nil, false
+			}
+		default:
+			return nil, false
+		}
+	}
+	// every loop-carried phi is excluded: threading is only for merges of short-circuit evaluation
+	for _, e := range phi.Edges {
+		if e == ssa.Value(phi) {
+			return nil, false
+		}
+	}
+	return phi, true
+}
+
+func phiIfNegated(b *ssa.BasicBlock) bool {
+	ifi := b.Instrs[len(b.Instrs)-1].(*ssa.If)
+	u, ok := ifi.Cond.(*ssa.UnOp)
+	return ok && u.Op == token.NOT
 }
 
 // IsInstr builds a target predicate for one instruction.
